@@ -184,6 +184,9 @@ def check(run, prog, tier):
     rule_M(run, prog)
     run.rule("C02-N", "every comparison of a pure-dephasing type with a string names one of the types the class knows", minimum=8)
     rule_N(run, prog)
+    run.rule("C02-O", "an evolution answers from the states it has stored: a state object handed to it at construction, whose "
+                      "values were copied into the storage, is the caller's and is not read again for a result", minimum=1)
+    rule_O(run, prog)
     run.rule("C02-L", "what the propagated state is measured with is Hermitian: the scalar product of state vectors conjugates its "
                       "first vector; the eigenvector matrix of a Hamiltonian is inverted by its Hermitian conjugate", minimum=5)
     rule_L(run, prog)
@@ -764,6 +767,61 @@ def rule_M(run, prog):
                                    % (f.short, norm(c)[:60]), loc=f.loc(c))
     if n < 3:
         raise AnalysisError("only %d phase factors found in the conversions from the rotating frame (3 confirmed)" % n)
+
+
+def rule_O(run, prog):
+    """'State-vector and density-matrix propagation agree': the density matrices made of a state-vector evolution are
+    |psi(t_i)><psi(t_i)| of the amplitudes the evolution has stored, at every time including the first.  The constructor of
+    an evolution copies the values of the initial state into row 0 of its storage and may also keep the state object
+    itself (for display).  That object is the caller's: it is the vector the caller propagates next, it is changed in
+    place by conversions to the rotating frame.  The stored row and the kept object are equal only until one of them is
+    touched.  Any method other than the constructor and the string conversions that reads the kept object computes from
+    something that is not the evolution's record."""
+    rid = "C02-O"
+    n = 0
+    for cls in prog.all_classes():
+        if not cls.qualname.startswith("quantarhei.qm.propagators.") or ".tests." in cls.qualname:
+            continue
+        for mname, f in cls.methods.items():
+            if not hasattr(f.node, "args"):
+                continue
+            params = {a.arg for a in f.node.args.args} - {"self"}
+            kept, copied = {}, set()
+            for st in walk_no_nested(f.node):
+                if not isinstance(st, ast.Assign):
+                    continue
+                for t_ in st.targets:
+                    if isinstance(t_, ast.Attribute) and norm(t_.value) == "self" and isinstance(st.value, ast.Name) \
+                            and st.value.id in params:
+                        kept[st.value.id] = t_.attr
+                    b_ = t_
+                    while isinstance(b_, ast.Subscript):
+                        b_ = b_.value
+                    if b_ is not t_ and isinstance(b_, ast.Attribute) and norm(b_.value) == "self" and b_.attr in ("data", "_data"):
+                        for y in ast.walk(st.value):
+                            if isinstance(y, ast.Attribute) and y.attr in ("data", "_data") and isinstance(y.value, ast.Name) \
+                                    and y.value.id in params:
+                                copied.add(y.value.id)
+            for p_ in sorted(set(kept) & copied):
+                attr = kept[p_]
+                n += 1
+                prog.consulted.add(f.relpath)
+                readers = []
+                for oname, g in cls.methods.items():
+                    if oname in (mname, "__str__", "__repr__"):
+                        continue
+                    for y in walk_no_nested(g.node):
+                        if isinstance(y, ast.Attribute) and y.attr == attr and norm(y.value) == "self" and isinstance(y.ctx, ast.Load):
+                            readers.append((g, y))
+                run.obligation(rid, "%s.%s" % (cls.name, attr), not readers, key="borrowed-copy-not-read",
+                               message="%s reads self.%s - the object handed to %s, whose values were copied into the stored array "
+                                       "there.  The object belongs to the caller (the next initial condition is written into it, a "
+                                       "frame conversion changes it in place) and the stored row is converted with the evolution: the "
+                                       "two differ as soon as either is touched, and the result is not the evolution's first state"
+                                       % (readers[0][0].short if readers else "", attr, f.short),
+                               loc=readers[0][0].loc(readers[0][1]) if readers else f.loc(f.node), sample={"kept": attr, "from": p_})
+    if n < 1:
+        raise AnalysisError("C02-O: no evolution keeps the object whose values it copies (StateVectorEvolution.psi_i confirmed)")
 
 
 def rule_N(run, prog):
